@@ -61,7 +61,9 @@ res["checks"] = checks
 res["tier"] = tier
 dst = os.path.join("/verif/seeded", "%s-%s" % (prop, name))
 os.makedirs(dst, exist_ok=True)
-shutil.copy(patch, os.path.join(dst, "patch.diff")); shutil.copy(demo, os.path.join(dst, "demo_test.go"))
+for a, b in ((patch, "patch.diff"), (demo, "demo_test.go")):
+    if os.path.abspath(a) != os.path.abspath(os.path.join(dst, b)):
+        shutil.copy(a, os.path.join(dst, b))
 res["what_it_needs"] = meta_txt.strip()
 try:
     old = json.load(open(os.path.join(dst, "meta.json")))
